@@ -286,6 +286,25 @@ def ctor_cases(tier, cfg=None, QD='highp', tag='', simd=False):
                       '*o = %s(%s);' % (mt.cpp, ', '.join('*c%d' % i for i in range(C))), cfg)
                 nm = 'mat%dx%d<%s>(columns<%s>)' % (C, Rr, T, U)
                 cs.append(R.Case(nm, [k], sel_judge(nm, 'ctor_matrix_convert', k, mt, {(c, r): conv(U, T, L.in_term('c%d' % c, cols[c], r)) for c in range(C) for r in range(Rr)}, allow_missing=True)))
+    # columns / elements of *mixed* element types (the templated V1..V4 / X1..W4 constructors): every argument converts on its own, in argument order
+    for T in (('float', 'int', 'double') if tier == 'thorough' else ('float', 'int')):
+        for C in (2, 3, 4):
+            for Rr in (2, 3, 4):
+                mt = G.mat(C, Rr, T)
+                for rot in ((0, 1, 2, 3) if tier == 'thorough' else (1, 2)):
+                    Us = [TT[(i + rot) % len(TT)] for i in range(C)]
+                    cols = [G.vec(Rr, U) for U in Us]
+                    k = K('mctor_%s_mixcols_r%d' % (mt.tag, rot), [Par('o', mt, False)] + [Par('c%d' % i, cols[i]) for i in range(C)],
+                          '*o = %s(%s);' % (mt.cpp, ', '.join('*c%d' % i for i in range(C))), cfg)
+                    nm = 'mat%dx%d<%s>(%s)' % (C, Rr, T, ', '.join('vec%d<%s>' % (Rr, U) for U in Us))
+                    cs.append(R.Case(nm, [k], sel_judge(nm, 'ctor_matrix_convert', k, mt, {(c, r): conv(Us[c], T, L.in_term('c%d' % c, cols[c], r)) for c in range(C) for r in range(Rr)}, allow_missing=True)))
+                    n = C * Rr
+                    Es = [TT[(i + rot) % len(TT)] for i in range(n)]
+                    scs = [G.scalar(U) for U in Es]
+                    k = K('mctor_%s_mixelems_r%d' % (mt.tag, rot), [Par('o', mt, False)] + [Par('e%d' % i, scs[i]) for i in range(n)],
+                          '*o = %s(%s);' % (mt.cpp, ', '.join('*e%d' % i for i in range(n))), cfg)
+                    nm = 'mat%dx%d<%s>(%d scalars of mixed types, rotation %d)' % (C, Rr, T, n, rot)
+                    cs.append(R.Case(nm, [k], sel_judge(nm, 'ctor_matrix_convert', k, mt, {(c, r): conv(Es[c * Rr + r], T, L.in_term('e%d' % (c * Rr + r), scs[c * Rr + r], 0)) for c in range(C) for r in range(Rr)}, allow_missing=True)))
     # quaternions: (w,x,y,z), (s, vec3), conversion, wxyz factory — in both memory orders
     for wx, cfgq in ((False, cfg), (True, Cfg('ctor_wxyz', defines=('GLM_FORCE_QUAT_DATA_WXYZ',), headers=CFG_DEF.headers))):
         for T in ('float', 'double'):
